@@ -241,3 +241,40 @@ class json_compat_obj_encode:
         return exc is None and round_trips(data_type, obj, result)
 
     gen = staticmethod(_encode_entry_case)
+
+
+# ---------------------------------------------------------------- C13: omitted fields and redaction at the string entry points
+
+import spec.c13_gen as C13
+
+
+@contract(M + 'json_encode', properties=['C13'], bounded=True)
+class json_encode:
+    """C13: "a field or tag annotated as omitted for caller class c is absent from every encoding produced
+    for a caller without permission c ... and is present for callers holding c.  When redaction is
+    requested, the clear-text value of every field carrying a redactor, directly or through an alias,
+    including list items and map values at any nesting depth, never appears in the output" """
+    params = {'data_type': AnyVal(), 'obj': AnyVal(), 'caller_permissions': AnyVal(), 'alias_validators': Lit(None),
+              'old_style': Lit(False), 'should_redact': OneOf(Lit(True), Lit(False))}
+
+    def ensures(data_type, obj, caller_permissions, alias_validators, old_style, should_redact, result, exc):
+        return C13.check_json_encode(data_type, obj, caller_permissions, should_redact, result, exc)
+
+    @staticmethod
+    def gen(rng):
+        d = C13.gen_encode(rng)
+        d['alias_validators'] = {'k': 'none'}
+        d['old_style'] = {'k': 'bool', 'v': False}
+        return d
+
+
+@contract(M + 'json_decode', properties=['C13'], bounded=True)
+class json_decode:
+    """C13: an omitted field or tag "cannot be supplied by such a caller when decoding in strict mode";
+    a caller holding the permission can supply it and gets it back"""
+    params = {'data_type': AnyVal(), 'serialized_obj': AnyVal(), 'caller_permissions': AnyVal()}
+
+    def ensures(data_type, serialized_obj, caller_permissions, result, exc):
+        return C13.check_json_decode(data_type, serialized_obj, caller_permissions, result, exc)
+
+    gen = staticmethod(C13.gen_decode)
